@@ -110,3 +110,49 @@ TRELLIS = [
 @register("TranslTrellis")  # noqa: F821
 def gen_transl_trellis():
     return _py2lean_arr().translate_unit("Trellis", TRELLIS, {}, header=HEADER)  # noqa: F821
+
+
+_BB = "okdmr.dmrlib.utils.bits_bytes"
+BITSBYTES = [
+    (_BB, "byteswap_bytearray", None),
+    (_BB, "byteswap_bytes", None),
+    (_BB, "half_byte_to_bytes", None),
+]
+
+
+@register("TranslBitsBytes")  # noqa: F821
+def gen_transl_bitsbytes():
+    return _py2lean_arr().translate_unit("BitsBytes", BITSBYTES, {}, header=HEADER)  # noqa: F821
+
+
+# ---- C13: hytera_ipsc.py through tools/py2lean_rec.py (record class, IPSC enums through Gen/Ipsc, helpers of TranslBitsBytes) ---
+def _py2lean_rec():
+    spec = importlib.util.spec_from_file_location("py2lean_rec", os.path.join(_HERE, "py2lean_rec.py"))
+    mod = importlib.util.module_from_spec(spec)
+    spec.loader.exec_module(mod)
+    return mod
+
+
+_IPSC = "okdmr.dmrlib.hytera.hytera_ipsc"
+
+
+@register("TranslIpsc")  # noqa: F821
+def gen_transl_ipsc():
+    m = _py2lean_rec()
+    g = "Dmr.Gen.Ipsc."
+    u = m.Unit(
+        "Ipsc",
+        [(_IPSC, "HyteraIPSC.from_ipsc_bytes", None), (_IPSC, "HyteraIPSC.as_ipsc_bytes", None)],
+        record=(_IPSC, "HyteraIPSC"),
+        enums={
+            "CallType": (g + "callTypeVal", g + "callTypeDefault"),
+            "FrameType": (g + "frameTypeVal", g + "frameTypeDefault"),
+            "PacketType": (g + "packetTypeVal", g + "packetTypeDefault"),
+            "SlotType": (g + "slotTypeVal", g + "slotTypeDefault"),
+            "Timeslot": (g + "timeslotVal", g + "timeslotDefault"),
+        },
+        field_types={"payload": "bytes"},  # Union[bytes, "Burst"]: the bytes form
+        uses=[("BitsBytes", _BB, "byteswap_bytearray"), ("BitsBytes", _BB, "byteswap_bytes"), ("BitsBytes", _BB, "half_byte_to_bytes")],
+        imports=["DmrVerif.Gen.Ipsc", "DmrVerif.Gen.TranslBitsBytes"],
+    )
+    return u.render(HEADER)  # noqa: F821
